@@ -1289,6 +1289,61 @@ func c10LoadTestdata() []c10Seed {
 	return out
 }
 
+// c10LongHistory: a decoder serves a process for its whole life. One goroutine decodes a long
+// run of events and filters whose ids, keys and tag values are all distinct (more than any
+// small table, ring or pool holds) and comes back to the first ones now and then: every value
+// must still be the one its text supplies, however many others were decoded in between.
+func c10LongHistory(rep *vk.Report) {
+	n := vk.N(12000, 150000)
+	text := func(i int) (ev []byte, e *mocrelay.Event) {
+		e = &mocrelay.Event{ID: vk.HexOf(fmt.Sprint("c10 long id ", i)), Pubkey: vk.HexOf(fmt.Sprint("c10 long pk ", i)), CreatedAt: int64(i), Kind: int64(i % 40000),
+			Content: fmt.Sprint("c10 long content ", i), Sig: strings.Repeat(fmt.Sprintf("%08x", i), 16),
+			Tags: []mocrelay.Tag{{"e", vk.HexOf(fmt.Sprint("c10 long e ", i))}, {"p", vk.HexOf(fmt.Sprint("c10 long p ", i)), "wss://r" + fmt.Sprint(i) + ".example"}, {"t", fmt.Sprint("topic-", i)}}}
+		b, _ := json.Marshal(e)
+		return b, e
+	}
+	check := func(i int, when string) bool {
+		b, want := text(i)
+		var got mocrelay.Event
+		rep.Eval(1)
+		if err := json.Unmarshal(b, &got); err != nil || !vk.EventsEqual(&got, want) {
+			rep.Violation("long-history/Event/value-changed", fmt.Sprintf("event %d of a long run of distinct events decodes to a value its text does not supply (%s): err=%v", i, when, err),
+				map[string]any{"text": string(b), "decoded": c10Show(&got)})
+			return false
+		}
+		frame := append(append([]byte(`["EVENT",`), b...), ']')
+		m, err := mocrelay.ParseClientMsg(frame)
+		em, is := m.(*mocrelay.ClientEventMsg)
+		if err != nil || !is || !vk.EventsEqual(em.Event, want) {
+			rep.Violation("long-history/ClientEventMsg/value-changed", fmt.Sprintf("EVENT %d of a long run of distinct messages decodes to a value its text does not supply (%s): err=%v", i, when, err),
+				map[string]any{"text": string(frame)})
+			return false
+		}
+		f := &mocrelay.ReqFilter{IDs: []string{want.ID}, Authors: []string{want.Pubkey}, Tags: map[string][]string{"e": {want.Tags[0][1]}, "t": {want.Tags[2][1]}}}
+		fb, _ := json.Marshal(f)
+		var gf mocrelay.ReqFilter
+		if err := json.Unmarshal(fb, &gf); err != nil || !c10FilterEq(&gf, f) {
+			rep.Violation("long-history/ReqFilter/value-changed", fmt.Sprintf("filter %d of a long run of distinct filters decodes to a value its text does not supply (%s): err=%v", i, when, err),
+				map[string]any{"text": string(fb)})
+			return false
+		}
+		rep.Count("long_history_decodes", 3)
+		return true
+	}
+	for i := 0; i < n; i++ {
+		if !check(i, "first time") {
+			return
+		}
+		if i%1500 == 1499 {
+			for _, j := range []int{0, 1, i - 1499, i / 2} {
+				if !check(j, fmt.Sprintf("again after %d other distinct values", i-j)) {
+					return
+				}
+			}
+		}
+	}
+}
+
 // ---------------------------------------------------------------------------
 // the monitor
 
@@ -1455,6 +1510,8 @@ func TestVerif_C10(t *testing.T) {
 		}
 		run.batch("big", i, r, []*c10Input{{text: cut, home: d.name, mut: "huge/mutant", seed: true}})
 	})
+
+	c10LongHistory(rep)
 
 	// sanity gates -------------------------------------------------------------------------
 	nValues := int64(nValueBatches * valuesPerBatch)
